@@ -213,11 +213,12 @@ TIES = {
     "generic_end_to_end": {"sources": ["pyjelly/integrations/generic/serialize.py", "pyjelly/integrations/generic/parse.py",
                                        "pyjelly/integrations/generic/generic_sink.py", "pyjelly/serialize/encode.py", "pyjelly/parse/decode.py",
                                        "pyjelly/serialize/streams.py", "pyjelly/serialize/flows.py"],
-                           "unit": "generic_serialize", "gen": "GenericSerializeGen", "tie": "GenericEndToEnd", "props": ["C01", "C14"],
+                           "unit": "generic_serialize", "gen": "GenericSerializeGen", "tie": "GenericEndToEnd", "props": ["C01", "C14", "C06", "C03", "C19"],
                            "needs": ["lookup_enc", "lookup_dec", "options", "encode", "encode_stmt", "flows", "streams", "decode", "decoder_base", "decoder", "stmt_layout",
                                      "generic_sink", "generic_parse", "generic_serialize", "generic_round_trip", "generic_drivers"],
-                           "theorems": ["constructed_stream_is_related", "C01_end_to_end_generic_triples", "C01_end_to_end_generic_quads",
-                                        "C01_end_to_end_generic_graphs"]},
+                           "theorems": ["constructed_stream_is_related", "C06_source_generic_nothing_left_behind", "C03_source_generic_drivers_write_valid_streams",
+                                        "C19_source_generic_drivers_audit_clean", "C01_end_to_end_generic_triples",
+                                        "C01_end_to_end_generic_quads", "C01_end_to_end_generic_graphs"]},
     # C07 / C15 on translated source: the grouped parser yields one sink per frame holding what the Decoder yields for it; its sinks'
     # statements concatenated are the flat parser's; parse_jelly_to_graph is one sink with all of it; for every stream the referee accepts
     "generic_grouped": {"sources": ["pyjelly/integrations/generic/parse.py", "pyjelly/integrations/generic/generic_sink.py", "pyjelly/parse/decode.py"],
